@@ -10,26 +10,27 @@ import (
 // PRECOMMIT / COMMIT to the same targets. D's engine supplies the election certificate (its own PROPOSE message);
 // everything the engine itself says after the election vote is to be suppressed by the round's Route.
 type ByzLeader struct {
-	S            *Sim
-	D            int
-	Root, Round  uint64
-	Props        []*Proposal
-	HighQcs      []*lib.QuorumCertificate // per proposal, may be nil
-	Targets      [][]int
-	CoSigners    []int
-	Justify      *lib.QuorumCertificate // election certificate to use; nil = take the engine's
-	StopBefore   lib.Phase              // 0 = go all the way; Precommit = withhold PRECOMMIT; Commit = withhold COMMIT
-	PrecommitTo  [][]int                // optional narrower targets for PRECOMMIT
-	CommitTo     [][]int                // optional narrower targets for COMMIT
-	WrongPhaseCM bool                   // COMMIT carries the PROPOSE_VOTE certificate instead of the PRECOMMIT_VOTE one
-	NoPartialCM  bool                   // do not send COMMIT when the PRECOMMIT_VOTE certificate is below +2/3 (input class of an open finding)
-	SkippedCM    int
-	Sent         []*Env
-	PCCerts      []*lib.QuorumCertificate // the PROPOSE_VOTE certificates that were formed (index = proposal)
-	CMCerts      []*lib.QuorumCertificate
-	proposed     bool
-	pcDone       bool
-	cmDone       bool
+	S                    *Sim
+	D                    int
+	Root, Round          uint64
+	Props                []*Proposal
+	HighQcs              []*lib.QuorumCertificate // per proposal, may be nil
+	Targets              [][]int
+	CoSigners            []int
+	Justify              *lib.QuorumCertificate // election certificate to use; nil = take the engine's
+	StopBefore           lib.Phase              // 0 = go all the way; Precommit = withhold PRECOMMIT; Commit = withhold COMMIT
+	PrecommitTo          [][]int                // optional narrower targets for PRECOMMIT
+	CommitTo             [][]int                // optional narrower targets for COMMIT
+	WrongPhaseCM         bool                   // COMMIT carries the PROPOSE_VOTE certificate instead of the PRECOMMIT_VOTE one
+	ElectionCertAsHighQc bool                   // HighQc of every proposal = the election certificate of this round with the proposal's hashes
+	NoPartialCM          bool                   // do not send COMMIT when the PRECOMMIT_VOTE certificate is below +2/3 (input class of an open finding)
+	SkippedCM            int
+	Sent                 []*Env
+	PCCerts              []*lib.QuorumCertificate // the PROPOSE_VOTE certificates that were formed (index = proposal)
+	CMCerts              []*lib.QuorumCertificate
+	proposed             bool
+	pcDone               bool
+	cmDone               bool
 }
 
 func hasKind(sent []*Env, kind string, root, round uint64) bool {
@@ -74,6 +75,12 @@ func (b *ByzLeader) After(step int, sent []*Env) {
 				var hq *lib.QuorumCertificate
 				if k < len(b.HighQcs) {
 					hq = b.HighQcs[k]
+				}
+				if b.ElectionCertAsHighQc {
+					// the leader's own +2/3 ELECTION_VOTE certificate of this round, dressed up as a lock certificate for its
+					// proposal: the election sign bytes cover only (view, proposer key), so the hashes can be filled in freely
+					hq = &lib.QuorumCertificate{Header: just.Header, ProposerKey: just.ProposerKey, Signature: just.Signature,
+						BlockHash: p.BlockHash, ResultsHash: p.ResultsHash}
 				}
 				b.deliver(s.CraftPropose(b.D, b.Root, b.Round, just, p, hq, nil, b.Targets[k]))
 			}
